@@ -512,8 +512,18 @@ func (g *caseGen) service(svc *svcInfo, nper int) []*opCase {
 	var out []*opCase
 	s := g.u.Schema
 	key := fmt.Sprintf("%s:%d", g.u.Key, svc.Idx)
-	// single calls: every reachable method, several answers
+	// methods with an argument whose IDL name starts with `_` have unexported Go struct fields: the reflection driver
+	// cannot build their arguments; they are compiled and scanned, not called
+	var drive []*methodInfo
 	for _, m := range svc.All {
+		if m.drivable() {
+			drive = append(drive, m)
+		} else {
+			g.out.Count("case.method_not_driven_underscore_arg")
+		}
+	}
+	// single calls: every reachable method, several answers
+	for _, m := range drive {
 		for k := 0; k < nper; k++ {
 			if c := g.mkCall(m, false); c != nil {
 				out = append(out, g.callLine(svc, []*callSpec{c}))
@@ -521,7 +531,7 @@ func (g *caseGen) service(svc *svcInfo, nper int) []*opCase {
 		}
 	}
 	// sequences on one connection
-	for k := 0; k < 3 && len(svc.All) > 0; k++ {
+	for k := 0; k < 3 && len(drive) > 0; k++ {
 		n := 2 + g.r.Intn(19)
 		if k == 0 {
 			n = 2 + g.r.Intn(4)
@@ -529,7 +539,7 @@ func (g *caseGen) service(svc *svcInfo, nper int) []*opCase {
 		var calls []*callSpec
 		for i := 0; i < n; i++ {
 			// a call whose arguments or answer have no normal form stops a reader half way: last call only
-			if c := g.mkCall(svc.All[g.r.Intn(len(svc.All))], i != n-1 || g.r.Chance(70)); c != nil {
+			if c := g.mkCall(drive[g.r.Intn(len(drive))], i != n-1 || g.r.Chance(70)); c != nil {
 				calls = append(calls, c)
 			}
 		}
@@ -579,7 +589,7 @@ func (g *caseGen) service(svc *svcInfo, nper int) []*opCase {
 			}
 		}
 	}
-	for _, m := range svc.All {
+	for _, m := range drive {
 		c := g.mkCall(m, true)
 		if c == nil {
 			continue
@@ -618,7 +628,7 @@ func (g *caseGen) service(svc *svcInfo, nper int) []*opCase {
 		}
 	}
 	// canned replies
-	for _, m := range svc.All {
+	for _, m := range drive {
 		if m.Oneway && !g.r.Chance(30) {
 			continue
 		}
@@ -847,6 +857,9 @@ func verdict(oc *opCase, ans string) string {
 			m := c.m
 			seq := oc.seq0 + int32(i+1)
 			at := fmt.Sprintf("call %d (%s): ", i+1, m.Name)
+			if ca.outcome == "nomethod" {
+				return at + "the generated client of service " + oc.svc.Name + " has no method for the (inherited) function " + m.Name
+			}
 			// (1) request = <name as in the IDL, CALL, seqid> ++ args struct with the IDL ids
 			rb, ok := unhex(ca.req)
 			if !ok || len(rb) == 0 {
@@ -1112,6 +1125,17 @@ func shrink(b *batch.Built, r *vl.Rng, oc *opCase, ans, msg string) (*opCase, st
 
 // ---------------------------------------------------------------- run
 
+var reErrPath = regexp.MustCompile(`\S*/([^/\s:]+\.go)(:\d+)*:?`)
+
+// normErr strips directories and positions from a compiler message (stable key)
+func normErr(e string) string {
+	e = reErrPath.ReplaceAllString(strings.TrimSpace(e), "$1:")
+	if len(e) > 160 {
+		e = e[:160]
+	}
+	return e
+}
+
 func where(file int) string {
 	if file == 0 {
 		return "main-file"
@@ -1240,6 +1264,16 @@ func run(repo, dir string, seed uint64, nprog int, tier string, keep bool, only 
 		streams = append(streams, streaming)
 		units = append(units, batch.Unit{Prog: p, Recurse: true, Tag: "regression:streaming-included-file"})
 		out.Count("unit.regression")
+		// aimed units: extends across files with local services named like the included base / its base; every Go keyword,
+		// predeclared identifier and template identifier as function, argument and throws member name
+		p, streaming = shadowProgram()
+		streams = append(streams, streaming)
+		units = append(units, batch.Unit{Prog: p, Recurse: true, Tag: "aimed:extends-shadowed-by-local-service"})
+		p, streaming = keywordProgram()
+		streams = append(streams, streaming)
+		units = append(units, batch.Unit{Prog: p, Recurse: true, Tag: "aimed:keyword-names"})
+		out.Count("unit.aimed")
+		out.Count("unit.aimed")
 	}
 	for i := 0; i < nprog; i++ {
 		stress := i%4 == 3
@@ -1275,9 +1309,29 @@ func run(repo, dir string, seed uint64, nprog int, tier string, keep bool, only 
 	for i := range b.Units {
 		u := &b.Units[i]
 		if !unitUsable(u, tables[i]) {
-			// rejected / uncompilable output is C01's business: counted and described, not reported here
+			// the property quantifies over ACCEPTED programs with services: output that does not compile (or an accepted-looking
+			// program that is rejected) is a failing input of this check, with the compiler's message
 			out.Count("unit.unusable")
 			out.Sample(map[string]interface{}{"unusable_unit": u.Key, "tag": u.Tag, "options": u.Options, "build": u.BuildErrors, "exit": u.Exit})
+			what, msgs := "generated Go code does not compile", append(append([]string{}, u.ParseErrors...), u.BuildErrors...)
+			if u.Exit != 0 {
+				what, msgs = fmt.Sprintf("thriftgo rejected the program (exit %d)", u.Exit), strings.Split(strings.TrimSpace(u.Stderr), "\n")
+			}
+			for _, e := range u.Registry {
+				if !e.Found && len(msgs) == 0 {
+					msgs = append(msgs, "no generated Go type for schema struct: "+e.Note)
+				}
+			}
+			if len(msgs) > 8 {
+				msgs = msgs[:8]
+			}
+			first := ""
+			if len(msgs) > 0 {
+				first = normErr(msgs[0])
+			}
+			out.Fail(vl.OracleFail{Key: "unit-does-not-compile:" + u.Tag + ":" + first, What: what + ": " + strings.Join(msgs, " | "),
+				Input:    map[string]interface{}{"unit": u.Key, "tag": u.Tag, "options": u.Options, "idl": units[i].Prog.Render(), "cmd": strings.Join(u.Cmd, " "), "seed": seed},
+				Expected: "thriftgo exit 0 and `go build` of the generated packages succeeds", Observed: msgs})
 		}
 	}
 	if badUnits*2 > len(b.Units) {
@@ -1310,6 +1364,13 @@ func run(repo, dir string, seed uint64, nprog int, tier string, keep bool, only 
 					Input:    map[string]interface{}{"unit": u.Key, "options": u.Options, "idl": units[i].Prog.Render(), "cmd": strings.Join(u.Cmd, " "), "service": us.si.Name, "function": l, "seed": seed},
 					Expected: "interface, client and processor hold the non-streaming functions only", Observed: fmt.Sprintf("%s registers %v", us.gs.procCtor, us.gs.procLits)})
 			}
+			for _, sh := range us.shape {
+				fmt.Println("SERVICE", u.Key, sh)
+				out.Count("service.extends_shape_wrong")
+				out.Fail(vl.OracleFail{Key: "extends-shape:" + u.Tag + ":" + us.si.Name, What: sh,
+					Input:    map[string]interface{}{"unit": u.Key, "tag": u.Tag, "options": u.Options, "idl": units[i].Prog.Render(), "cmd": strings.Join(u.Cmd, " "), "service": us.si.Name, "seed": seed},
+					Expected: "the generated interface / client / processor of a derived service build on those of the IDL base service", Observed: sh})
+			}
 			if us.note != "" {
 				fmt.Printf("SERVICE %s:%d (%s) not usable: %s\n", u.Key, us.si.Idx, us.si.Name, us.note)
 				out.Count("service.unmatched")
@@ -1334,9 +1395,15 @@ func run(repo, dir string, seed uint64, nprog int, tier string, keep bool, only 
 	}
 	out.Stats["timing_ms.go_build_ext"] = int(time.Since(tb).Milliseconds())
 	for k, why := range dropped {
+		// the handler is synthesised from the generated interfaces themselves: if it does not compile against them the
+		// generated service code is inconsistent (or the harness is): reported, never skipped silently
 		fmt.Printf("GLUE for unit u%d does not compile:\n%s\n", k, why)
 		out.Count("unit.glue_failed")
 		delete(usable, k)
+		u := &b.Units[k]
+		out.Fail(vl.OracleFail{Key: "handler-does-not-compile:" + u.Tag + ":" + normErr(strings.Split(why, "\n")[0]), What: "a handler implementing the generated service interfaces of the unit does not compile: " + why,
+			Input:    map[string]interface{}{"unit": u.Key, "tag": u.Tag, "options": u.Options, "idl": units[k].Prog.Render(), "cmd": strings.Join(u.Cmd, " "), "seed": seed},
+			Expected: "interface + client + processor of every service are consistent", Observed: why})
 	}
 	if len(usable)*2 < len(b.Units) {
 		out.Fail(vl.OracleFail{Key: "units-unusable", What: fmt.Sprintf("only %d of %d units could be driven", len(usable), len(b.Units)), Observed: b.Summary()})
